@@ -453,7 +453,8 @@ fn txmode(seed: u64, n: u64) {
     let mut csprng = StdRng::seed_from_u64(seed ^ 0x7711);
     let kinds = ["transfer", "transfer_with_memo", "transfer_with_schedule", "transfer_with_schedule_and_memo", "register_data",
         "deploy_module", "init_contract", "update_contract", "configure_baker", "configure_delegation", "remove_baker",
-        "update_baker_stake", "update_baker_restake_earnings", "transfer_to_encrypted", "token_update_operations", "configure_baker_keys"];
+        "update_baker_stake", "update_baker_restake_earnings", "transfer_to_encrypted", "token_update_operations", "configure_baker_keys",
+        "update_credential_keys", "update_credentials"];
     for i in 0..n {
         let kind = kinds[(i as usize) % kinds.len()];
         let ak = small_account(&mut r, &mut csprng);
@@ -465,21 +466,25 @@ fn txmode(seed: u64, n: u64) {
         let via_send = r.chance(1, 2);
         let num_sigs: u32 = if via_send { ak.num_keys() } else { *r.pick(&[0u32, 1, 2, 3, 255, 65536, u32::MAX]) };
         let mut params = json!({});
-        let memo = || -> Vec<u8> { vec![] };
-        let _ = memo;
-        let pre: construct::PreAccountTransaction = match kind {
+        // count / size parameters walk through their type boundaries deterministically (round = how often this kind came up)
+        let round = (i as usize) / kinds.len();
+        let at_b = |xs: &[usize], off: usize| -> usize { xs[(round + off) % xs.len()] };
+        let built = guarded(|| -> construct::PreAccountTransaction { match kind {
             "transfer" => construct::transfer(num_sigs, sender, nonce, expiry, addr(&mut r), Amount::from_micro_ccd(r.u64_edge())),
-            "transfer_with_memo" => { let m = Memo::try_from(rb(&mut r, 257, 0)).unwrap();
+            "transfer_with_memo" => { let ms = at_b(&[256, 0, 1, 255, 17], 0); params = json!({"memo_size": ms});
+                let m = Memo::try_from(r.bytes(ms)).unwrap();
                 construct::transfer_with_memo(num_sigs, sender, nonce, expiry, addr(&mut r), Amount::from_micro_ccd(r.u64_edge()), m) }
             "transfer_with_schedule" | "transfer_with_schedule_and_memo" => {
-                let nr = *r.pick(&[0usize, 1, 2, 3, 17, 255]);
+                // 180 * 364 = 65520 < 2^16 <= 181 * 364: the u16 boundary of the per-release cost
+                let nr = at_b(&[181, 255, 1, 180, 182, 254, 0, 2, 179, 17], if kind == "transfer_with_schedule" { 0 } else { 1 });
                 let sched: Vec<(Timestamp, Amount)> = (0..nr).map(|_| (Timestamp::from_timestamp_millis(r.u64_edge()), Amount::from_micro_ccd(r.u64_edge()))).collect();
                 params = json!({"num_releases": nr});
                 if kind == "transfer_with_schedule" { construct::transfer_with_schedule(num_sigs, sender, nonce, expiry, addr(&mut r), sched) }
                 else { let m = Memo::try_from(rb(&mut r, 40, 0)).unwrap(); construct::transfer_with_schedule_and_memo(num_sigs, sender, nonce, expiry, addr(&mut r), sched, m) }
             }
-            "register_data" => construct::register_data(num_sigs, sender, nonce, expiry, RegisteredData::try_from(rb(&mut r, 257, 0)).unwrap()),
-            "deploy_module" => { let sz = *r.pick(&[0usize, 1, 9, 10, 11, 99, 1000, 4097]);
+            "register_data" => { let ds = at_b(&[256, 0, 1, 255, 100], 0); params = json!({"data_size": ds});
+                construct::register_data(num_sigs, sender, nonce, expiry, RegisteredData::try_from(r.bytes(ds)).unwrap()) }
+            "deploy_module" => { let sz = at_b(&[65536, 9, 10, 65535, 0, 1, 11, 99, 1000, 4097], 0);
                 params = json!({"module_size": sz});
                 let src: ModuleSource = r.bytes(sz).into();
                 construct::deploy_module(num_sigs, sender, nonce, expiry, WasmModule { version: if r.chance(1, 2) { WasmVersion::V0 } else { WasmVersion::V1 }, source: src }) }
@@ -510,6 +515,26 @@ fn txmode(seed: u64, n: u64) {
             "update_baker_stake" => construct::update_baker_stake(num_sigs, sender, nonce, expiry, Amount::from_micro_ccd(r.u64_edge())),
             "update_baker_restake_earnings" => construct::update_baker_restake_earnings(num_sigs, sender, nonce, expiry, r.chance(1, 2)),
             "transfer_to_encrypted" => construct::transfer_to_encrypted(num_sigs, sender, nonce, expiry, Amount::from_micro_ccd(r.u64_edge())),
+            "update_credential_keys" => {
+                use concordium_base::curve_arithmetic::Curve;
+                let nex = at_b(&[65535, 0, 1, 255, 256, 131], 0) as u16;
+                let nk = at_b(&[255, 1, 2, 3, 254], 0);
+                params = json!({"num_existing": nex, "num_keys": nk});
+                let kis = distinct_u8(&mut r, nk);
+                let kp = KeyPair::generate(&mut csprng);
+                let keys: BTreeMap<KeyIndex, VerifyKey> = kis.iter().map(|&k| (KeyIndex(k), VerifyKey::from(&kp))).collect();
+                let cid = concordium_base::base::CredentialRegistrationID::new(concordium_base::id::constants::ArCurve::one_point());
+                construct::update_credential_keys(num_sigs, sender, nonce, expiry, nex, cid, CredentialPublicKeys { keys, threshold: st(1) })
+            }
+            "update_credentials" => {
+                use concordium_base::curve_arithmetic::Curve;
+                // no new credentials (they need full identity proofs): exercises the num_existing_credentials term and the base
+                let nex = at_b(&[65535, 0, 1, 255, 256, 131], 0) as u16;
+                params = json!({"num_existing": nex, "num_cred_keys": Vec::<u16>::new()});
+                let cid = concordium_base::base::CredentialRegistrationID::new(concordium_base::id::constants::ArCurve::one_point());
+                let rem = if r.chance(1, 2) { vec![cid] } else { vec![] };
+                construct::update_credentials(num_sigs, sender, nonce, expiry, nex, BTreeMap::new(), rem, at(r.range(1, 255) as u8))
+            }
             _ => {
                 use concordium_base::protocol_level_tokens::{operations as ops, TokenAmount, TokenId, TokenOperations};
                 let nops = r.below(6) as usize;
@@ -528,8 +553,16 @@ fn txmode(seed: u64, n: u64) {
                 let tid = TokenId::try_from(format!("TK{}", r.below(1000))).unwrap();
                 construct::token_update_operations(num_sigs, sender, nonce, expiry, tid, v.into_iter().collect::<TokenOperations>()).unwrap()
             }
-        };
+        } });
         let kind_name = if kind == "configure_baker_keys" { "configure_baker" } else { kind };
+        let pre = match built {
+            Ok(p) => p,
+            Err(e) => {
+                // a panic inside a builder (e.g. arithmetic overflow in the energy computation under overflow checks)
+                println!("{}", json!({"k":"tx_panic","kind":kind_name,"params":params,"num_sigs":num_sigs,"panic":e}));
+                continue;
+            }
+        };
         let header_bytes = to_bytes(&pre.header);
         let payload_bytes = pre.encoded.clone();
         let payload_raw: Vec<u8> = to_bytes(&payload_bytes);
@@ -724,17 +757,70 @@ fn upd(seed: u64, n: u64) {
     let mut csprng = StdRng::seed_from_u64(seed ^ 0xABCD);
     let kpool: Vec<UpdateKeyPair> = (0..40).map(|_| UpdateKeyPair::generate(&mut csprng)).collect();
     let id_of = |pk: &UpdatePublicKey| -> u64 { kpool.iter().position(|k| &UpdatePublicKey::from(k) == pk).map(|i| i as u64 + 100).unwrap_or(99) };
+    // deterministic prefix: n keys, every access structure = all n keys with threshold t in {1, n-1, n, n+1}, m signers
+    let mut det: Vec<(usize, u16, usize)> = Vec::new();
+    for nn in 1..=3usize { let mut ts: Vec<u16> = vec![1, (nn as u16).saturating_sub(1).max(1), nn as u16, nn as u16 + 1]; ts.sort(); ts.dedup();
+        for t in ts { for m in 0..=nn { det.push((nn, t, m)); } } }
     for i in 0..n {
-        let nkeys = *r.pick(&[1usize, 2, 3, 5, 8, 13, 20]);
+        let dc = det.get(i as usize).cloned();
+        let nkeys = match dc { Some((nn, _, _)) => nn, None => *r.pick(&[1usize, 2, 3, 5, 8, 13, 20]) };
         // the key list may contain the same public key twice (position() then finds the first)
-        let key_ix: Vec<usize> = (0..nkeys).map(|_| { let m = if r.chance(1, 6) { 4 } else { 30 }; r.below(m) as usize }).collect();
+        let key_ix: Vec<usize> = match dc { Some((nn, _, _)) => (0..nn).map(|j| (j + i as usize) % 30).collect(),
+            None => (0..nkeys).map(|_| { let m = if r.chance(1, 6) { 4 } else { 30 }; r.below(m) as usize }).collect() };
         let keys: Vec<UpdatePublicKey> = key_ix.iter().map(|&j| UpdatePublicKey::from(&kpool[j])).collect();
-        let mk = |r: &mut Rng| gen_access(r, nkeys);
+        let mk = |r: &mut Rng| match dc {
+            Some((nn, t, _)) => AccessStructure { authorized_keys: (0..nn as u16).map(|index| UpdateKeysIndex { index }).collect(), threshold: uthr(t) },
+            None => gen_access(r, nkeys) };
         let v0 = AuthorizationsV0 { keys: keys.clone(), emergency: mk(&mut r), protocol: mk(&mut r), election_difficulty: mk(&mut r), euro_per_energy: mk(&mut r),
             micro_gtu_per_euro: mk(&mut r), foundation_account: mk(&mut r), mint_distribution: mk(&mut r), transaction_fee_distribution: mk(&mut r),
             param_gas_rewards: mk(&mut r), pool_parameters: mk(&mut r), add_anonymity_revoker: mk(&mut r), add_identity_provider: mk(&mut r) };
         let use_v1 = i % 2 == 1;
-        let v1 = AuthorizationsV1 { v0: v0.clone(), cooldown_parameters: mk(&mut r), time_parameters: mk(&mut r), create_plt: if r.chance(1, 2) { Some(mk(&mut r)) } else { None } };
+        let v1 = AuthorizationsV1 { v0: v0.clone(), cooldown_parameters: mk(&mut r), time_parameters: mk(&mut r), create_plt: if dc.is_some() || r.chance(1, 2) { Some(mk(&mut r)) } else { None } };
+        // ---- serialization round trip of the key collections, inside root / level-1 key-update payloads
+        if dc.is_some() || i % 4 == 0 {
+            let st_of = |a: &AccessStructure| json!([a.authorized_keys.len(), u16::from(a.threshold)]);
+            let v0_structs = |v: &AuthorizationsV0| vec![st_of(&v.emergency), st_of(&v.protocol), st_of(&v.election_difficulty), st_of(&v.euro_per_energy), st_of(&v.micro_gtu_per_euro),
+                st_of(&v.foundation_account), st_of(&v.mint_distribution), st_of(&v.transaction_fee_distribution), st_of(&v.param_gas_rewards), st_of(&v.pool_parameters),
+                st_of(&v.add_anonymity_revoker), st_of(&v.add_identity_provider)];
+            let hl_t = match dc { Some((_, t, _)) => t, None => *r.pick(&[1u16, nkeys as u16, nkeys as u16 + 1, (nkeys as u16).saturating_sub(1).max(1)]) };
+            let hl_root = updates::HigherLevelAccessStructure::<updates::RootKeysKind> { keys: keys.clone(), threshold: uthr(hl_t), _phantom: Default::default() };
+            let hl_l1 = updates::HigherLevelAccessStructure::<updates::Level1KeysKind> { keys: keys.clone(), threshold: uthr(hl_t), _phantom: Default::default() };
+            let v1_none = AuthorizationsV1 { create_plt: None, ..v1.clone() };
+            let v1_some = AuthorizationsV1 { create_plt: Some(v1.create_plt.clone().unwrap_or_else(|| v1.time_parameters.clone())), ..v1.clone() };
+            let mut s1 = v0_structs(&v0); s1.push(st_of(&v1.cooldown_parameters)); s1.push(st_of(&v1.time_parameters));
+            let mut s2 = s1.clone(); s2.push(st_of(v1_some.create_plt.as_ref().unwrap()));
+            let hl_s = vec![json!([keys.len(), hl_t])];
+            let shapes: Vec<(&str, UpdatePayload, Vec<Value>)> = vec![
+                ("root.RootKeysUpdate", UpdatePayload::Root(updates::RootUpdate::RootKeysUpdate(hl_root.clone())), hl_s.clone()),
+                ("root.Level1KeysUpdate", UpdatePayload::Root(updates::RootUpdate::Level1KeysUpdate(hl_l1.clone())), hl_s.clone()),
+                ("root.Level2KeysUpdate", UpdatePayload::Root(updates::RootUpdate::Level2KeysUpdate(Box::new(v0.clone()))), v0_structs(&v0)),
+                ("root.Level2KeysUpdateV1", UpdatePayload::Root(updates::RootUpdate::Level2KeysUpdateV1(Box::new(v1_none.clone()))), s1.clone()),
+                ("root.Level2KeysUpdateV2", UpdatePayload::Root(updates::RootUpdate::Level2KeysUpdateV2(Box::new(v1_some.clone()))), s2.clone()),
+                ("level1.Level1KeysUpdate", UpdatePayload::Level1(updates::Level1Update::Level1KeysUpdate(hl_l1.clone())), hl_s.clone()),
+                ("level1.Level2KeysUpdate", UpdatePayload::Level1(updates::Level1Update::Level2KeysUpdate(Box::new(v0.clone()))), v0_structs(&v0)),
+                ("level1.Level2KeysUpdateV1", UpdatePayload::Level1(updates::Level1Update::Level2KeysUpdateV1(Box::new(v1_none.clone()))), s1.clone()),
+                ("level1.Level2KeysUpdateV2", UpdatePayload::Level1(updates::Level1Update::Level2KeysUpdateV2(Box::new(v1_some.clone()))), s2.clone()),
+            ];
+            for (name, payload, structs) in shapes {
+                // sign it (any key signs: this is about building and reading the instruction back), then read it back
+                let mut signer = BTreeMap::new();
+                signer.insert(UpdateKeysIndex { index: 0 }, kpool[key_ix[0]].clone());
+                let res = guarded(|| {
+                    let ui: UpdateInstruction = updates::update::update(&signer, UpdateSequenceNumber::from(1u64), TransactionTime { seconds: 0 }, TransactionTime { seconds: 1 }, payload.clone());
+                    let raw = to_bytes(&ui);
+                    let back: Result<UpdateInstruction, _> = concordium_base::common::from_bytes(&mut std::io::Cursor::new(&raw));
+                    let instr_rt = back.as_ref().map(|b| to_bytes(b) == raw).unwrap_or(false);
+                    let dec = ui.payload.decode();
+                    let reenc = dec.as_ref().map(|p| to_bytes(p) == to_bytes(&ui.payload)).unwrap_or(false);
+                    (instr_rt, dec.is_ok(), reenc, to_bytes(&ui.payload) == to_bytes(&payload))
+                });
+                match res {
+                    Ok((instr_rt, dec_ok, reenc, enc_eq)) => println!("{}", json!({"k":"asrt","shape":name,"structs":structs,"instruction_roundtrip":instr_rt,
+                        "decode_ok":dec_ok,"reencode_eq":reenc,"payload_is_encoding":enc_eq,"det":dc.is_some()})),
+                    Err(e) => println!("{}", json!({"k":"asrt","shape":name,"structs":structs,"panic":e})),
+                }
+            }
+        }
         let (field, acc_s): (&str, AccessStructure) = match r.below(if use_v1 { 8 } else { 5 }) {
             0 => ("protocol", v0.protocol.clone()), 1 => ("foundation_account", v0.foundation_account.clone()), 2 => ("pool_parameters", v0.pool_parameters.clone()),
             3 => ("emergency", v0.emergency.clone()), 4 => ("euro_per_energy", v0.euro_per_energy.clone()),
@@ -742,9 +828,9 @@ fn upd(seed: u64, n: u64) {
             _ => ("create_plt", v1.create_plt.clone().unwrap_or_else(|| v1.time_parameters.clone())) };
         // the signing key pairs: mostly authorised ones, sometimes an unauthorised / unknown / duplicate one
         let auth: Vec<usize> = acc_s.authorized_keys.iter().filter(|x| (x.index as usize) < nkeys).map(|x| key_ix[x.index as usize]).collect();
-        let want = match r.below(4) { 0 => u16::from(acc_s.threshold) as usize, 1 => auth.len(), 2 => (u16::from(acc_s.threshold) as usize).saturating_sub(1), _ => r.below(auth.len() as u64 + 1) as usize };
+        let want = if let Some((_, _, m)) = dc { m } else { match r.below(4) { 0 => u16::from(acc_s.threshold) as usize, 1 => auth.len(), 2 => (u16::from(acc_s.threshold) as usize).saturating_sub(1), _ => r.below(auth.len() as u64 + 1) as usize } };
         let mut actual: Vec<usize> = auth.iter().cloned().take(want).collect();
-        match r.below(8) { 0 => actual.push(35 + r.below(5) as usize), 1 => { if let Some(&x) = actual.first() { actual.push(x); } }
+        match if dc.is_some() { 7 } else { r.below(8) } { 0 => actual.push(35 + r.below(5) as usize), 1 => { if let Some(&x) = actual.first() { actual.push(x); } }
             2 => { let unauth: Vec<usize> = (0..nkeys).filter(|j| !acc_s.authorized_keys.contains(&UpdateKeysIndex { index: *j as u16 })).map(|j| key_ix[j]).collect(); if !unauth.is_empty() { actual.push(*r.pick(&unauth)); } }
             _ => {} }
         let actual_kps: Vec<UpdateKeyPair> = actual.iter().map(|&j| kpool[j].clone()).collect();
@@ -754,7 +840,7 @@ fn upd(seed: u64, n: u64) {
         let acc_j = json!({"t": u16::from(acc_s.threshold), "auth": acc_s.authorized_keys.iter().map(|x| x.index).collect::<Vec<_>>()});
         let signer_j = match &signer { Err(_) => json!("PANIC"), Ok(None) => json!(null),
             Ok(Some(m)) => json!(m.iter().map(|(i, kp)| json!([i.index, id_of(&UpdatePublicKey::from(kp))])).collect::<Vec<_>>()) };
-        let mut line = json!({"k":"upd","version": if use_v1 {1} else {0},"field":field,"keys":keys_ids,"acc":acc_j,"actual":actual_ids,"signer":signer_j});
+        let mut line = json!({"k":"upd","det":dc.map(|(a, b, c)| json!([a, b, c])),"version": if use_v1 {1} else {0},"field":field,"keys":keys_ids,"acc":acc_j,"actual":actual_ids,"signer":signer_j});
         if let Ok(Some(m)) = signer {
             let payload = match r.below(4) {
                 0 => UpdatePayload::FoundationAccount(addr(&mut r)),
@@ -780,7 +866,7 @@ fn upd(seed: u64, n: u64) {
             let all_dead = ui.signatures.signatures.is_empty() || (dead(&d_h) && dead(&d_p));
             // optionally corrupt one signature to exercise the rejecting side of the reference rule
             let mut corrupted = false;
-            if r.chance(1, 5) && !sig_bits.is_empty() { let j = r.below(sig_bits.len() as u64) as usize; let (ix, _) = sig_bits[j];
+            if dc.is_none() && r.chance(1, 5) && !sig_bits.is_empty() { let j = r.below(sig_bits.len() as u64) as usize; let (ix, _) = sig_bits[j];
                 let mut s = ui.signatures.signatures[&UpdateKeysIndex { index: ix }].clone(); flip(&mut r, &mut s.sig);
                 sig_bits[j].1 = keys[ix as usize].public.verify(&indep, &s) as u8; corrupted = true; }
             let ref_accept = sig_bits.len() >= u16::from(acc_s.threshold) as usize
